@@ -110,18 +110,20 @@ def round_sig(x, nd=6):
 class History:
     """a random history.  Attributes after generate(): demes (list of dict, graph order), migrations, pulses, Ne, bounds
     (descending times incl. 0), events {time: event}, samples [(deme, time)]"""
-    def __init__(self, rng, max_live=5, n_events=None, want_ancient=False, min_final=1, force=None, big=False):
+    def __init__(self, rng, max_live=5, n_events=None, want_ancient=False, force=None, small_Ne=False):
         self.rng = rng
         self.max_live = max_live
         self.want_ancient = want_ancient
         self.force = list(force or [])
+        self.small_Ne = small_Ne
         self.n_events = int(rng.integers(2, 8)) if n_events is None else n_events
         self.generate()
 
     # -- pass 1: topology
     def generate(self):
         rng = self.rng
-        self.Ne = round_sig(loguniform(rng, 30, 300), 4)
+        # the frozen branch of an ancient sample has size 1: keep 1/Ne moderate there (time step ~ nu)
+        self.Ne = round_sig(loguniform(rng, 12, 60), 4) if self.small_Ne else round_sig(loguniform(rng, 30, 300), 4)
         Ne = self.Ne
         K = self.n_events
         # interval lengths in units of 2 Ne generations; event k happens at times[k] (descending), present = 0
@@ -473,6 +475,9 @@ def random_program(rng, max_pops=5, n_steps=None, allow_admix=True, p_reorder=1.
         for _ in range(d):
             r = rng.random()
             n0 = round_sig(loguniform(rng, 0.3, 3.0), 3); n1 = round_sig(loguniform(rng, 0.3, 3.0), 3)
+            # the export recognises a linear change numerically (numpy.allclose at three instants): an exponential change
+            # by a factor close to 1 is indistinguishable from a linear one by design -> keep exponential changes clear
+            if 0.8 < n1 / n0 < 1.25: n1 = round_sig(n0 * (1.6 if rng.random() < 0.5 else 0.6), 3)
             nus.append(('c', n0) if r < 0.5 else (('e', n0, n1) if r < 0.8 else ('l', n0, n1)))
         M = [[0.0 if i == j or rng.random() < 0.5 else round_sig(float(rng.uniform(0.1, 3.0)), 3) for j in range(d)] for i in range(d)]
         return dict(op='integrate', T=T, nu=nus, M=M, frozen=[False] * d)
@@ -499,11 +504,14 @@ def random_program(rng, max_pops=5, n_steps=None, allow_admix=True, p_reorder=1.
             for s in rng.choice(srcs, size=ns, replace=False).tolist(): pr[s] = round_sig(float(rng.uniform(0.02, 0.3)), 3)
             ops.append(dict(op='pulse', dest=dest, props=pr))
         elif k == 'remove':
+            if ops[-1]['op'] != 'integrate': ops.append(integ(d))          # not at the instant of a pulse
             ops.append(dict(op='remove', axis=int(rng.integers(d)))); d -= 1
         elif k == 'reorder':
             o = rng.permutation(d).tolist()
             ops.append(dict(op='reorder', order=o))
-        if k in ('split', 'admix') or rng.random() < 0.75:
+        # a new or a removed population is followed by an integration (a deme of zero duration cannot be exported, and the
+        # order of events at one instant is not a property of the history); pulses / reorderings may pile up
+        if k in ('split', 'admix', 'remove') or rng.random() < 0.75:
             ops.append(integ(d))
     if ops[-1]['op'] != 'integrate':
         ops.append(integ(d))
